@@ -70,6 +70,7 @@ fn main() {
         "C09" => dispatch(props::c09::C09, &cfg, &replay),
         "C10" => dispatch(props::c10::RelProp(props::c10::RWhich::C10), &cfg, &replay),
         "C14" => dispatch(props::c14::C14, &cfg, &replay),
+        "C11" => dispatch(props::c11::C11(Default::default()), &cfg, &replay),
         "C13" => dispatch(props::c10::RelProp(props::c10::RWhich::C13), &cfg, &replay),
         _ => {
             eprintln!("verif: unknown property {}", id);
